@@ -294,6 +294,19 @@ func main() {
 			jobs <- job{fmt.Sprintf("large input (%d-byte run)", n), "sizes", src}
 		}
 	}
+	// Unicode white space that is not ASCII white space (NBSP, NEL, line separator, ideographic space) in front of
+	// top-level Go code, between declarations and after the last template: what one scanner skips another may keep
+	for _, ws := range []string{"\u00a0", "\u0085", "\u2028", "\u3000", "\u00a0\u00a0", " \u00a0", "\u00a0 ", "\t\u2028\t"} {
+		for _, src := range []string{
+			"package p\n\n" + ws + "var x = 1\n\ntempl y() {\n\t<b>{ fmt.Sprint(x) }</b>\n}\n",
+			"package p\n\nvar a = 1\n" + ws + "\nvar x = 2\n\ntempl y() {\n}\n",
+			"package p\n\ntempl y() {\n}\n\n" + ws + "var x = 1\n",
+			"package p\n\ntempl y() {\n}\n\n" + ws + "func f() int {\n\treturn 1\n}" + ws + "\n",
+			"package p\n" + ws + "\ntempl y() {\n\t<b>" + ws + "{ \"x\" }</b>\n}\n",
+		} {
+			jobs <- job{fmt.Sprintf("top-level Go code next to the white-space character(s) %q", ws), "unicode white space", src}
+		}
+	}
 	close(jobs)
 	wg.Wait()
 	finish("")
